@@ -322,14 +322,15 @@ def gen_op(rng, w, allow_bad=True):
 
 
 def model_op(op):
-    m = {k: v for k, v in op.items() if k not in ('via', 'tag')}
+    m = {k: v for k, v in op.items() if k not in ('via', 'tag', 'refs_eff')}
     return m
 
 
 def expand(op):
     """the model has no Entity.set(**kw): it is compared with the sequence of single assignments in keyword order"""
     if op['k'] != 'setMany': return [model_op(op)]
-    return [{'k': 'setRef', 'o': op['o'], 'a': a, 'v': v} for a, v in op['refs']] + \
+    # Entity.set drops the keywords whose value equals the current one before doing anything ('refs_eff': the others)
+    return [{'k': 'setRef', 'o': op['o'], 'a': a, 'v': v} for a, v in op.get('refs_eff', op['refs'])] + \
            [{'k': 'setColl', 'o': op['o'], 'a': a, 'items': items} for a, items in op['colls']]
 
 
@@ -358,6 +359,8 @@ def classify(w, op, err, p, key, q, prev):
         okey = (op['a'][0], bool(op['a'][1]))
         if w.side(okey)['casc'] and held(prev[op['o']], okey):
             return 'one-to-one-cascade-reassign'
+    if op['k'] == 'setMany' and p == q == op.get('o'):
+        return 'entity-set-conflicting-self-reference'
     o = op.get('o', None)
     where = 'target-lost' if q == o else ('target-kept' if p == o else 'other')
     return '%s/%s/%s/%s' % (op['k'], err or 'ok', w.relkind(key), where)
@@ -442,6 +445,8 @@ def memory_phase(ctx, rng, nhist, nops):
             prev = []
             for _ in range(nops):
                 op, tag = gen_op(rng, w)
+                if op['k'] == 'setMany' and prev:
+                    op['refs_eff'] = [[a, v] for a, v in op['refs'] if held(prev[op['o']], (a[0], bool(a[1]))) != ([] if v is None else [v])]
                 err = w.apply(op)
                 snap = w.snapshot()
                 ctx.count('op:%s:%s' % (op['k'], err or 'ok'))
